@@ -74,6 +74,8 @@ def gen_h1(rng: random.Random) -> dict:
         cfg["h11_max_incomplete_size"] = rng.choice([20, 60, 200])
     if rng.random() < 0.1:
         cfg["max_app_queue_size"] = rng.choice([1, 2])
+    if rng.random() < 0.2:
+        cfg["read_timeout"] = rng.choice([0.4, 0.7507, 3.0007])      # never on the grid of client pauses / app delays
     if any(r["kind"] == "bad_server_name" for r in reqs):
         cfg["server_names"] = ["x"]
     data = b"".join(HS.request_bytes(r) for r in reqs)
@@ -130,7 +132,7 @@ def gen_h1(rng: random.Random) -> dict:
             "methods": [r["method"].upper() for r in reqs] + ["GET"] * 4, "linger": T_keep + 3.0, "tail": 10,
             "meta": {"kinds": [r["kind"] for r in reqs], "apps": [[a["when"], a["crash"]] for a in apps], "seg": mode.split(":")[0], "ending": ending + ("+data" if any(st[0] == "send_eof" for st in steps) else ""),
                      "malformed": malformed is not None, "terminate": term is not None, "pause": pause_at is not None, "fail": fail_at is not None,
-                     "cfg": [T_keep, cfg["keep_alive_max_requests"], "h11_max_incomplete_size" in cfg, "max_app_queue_size" in cfg]}}
+                     "cfg": [T_keep, cfg["keep_alive_max_requests"], "h11_max_incomplete_size" in cfg, "max_app_queue_size" in cfg, cfg.get("read_timeout")]}}
 
 
 def gen_h2(rng: random.Random) -> dict:
@@ -141,6 +143,8 @@ def gen_h2(rng: random.Random) -> dict:
         cfg["keep_alive_max_requests"] = rng.choice([1, 2])
     if rng.random() < 0.15:
         cfg["h2_max_concurrent_streams"] = rng.choice([1, 2])
+    if rng.random() < 0.15:
+        cfg["read_timeout"] = rng.choice([0.4, 0.7507, 3.0007])
     win = rng.choice([None, None, 0, 100, 20000])
     auto = rng.random() < 0.7
     h2opts = {"initial_window": win, "auto_window": auto}
@@ -384,6 +388,16 @@ def corpus() -> List[dict]:
     h1([], "silent_client")
     h1([["send", get]], "app_raises", apps=[[["raise"]]])
     h1([["send", get]], "slow_app_past_timeout", apps=[[["sleep", 3.0007]] + ok])
+    slow = [["recv_body"], ["sleep", 1.5007]] + ok[1:]
+    h1([["send", get + get]], "read_timeout_pipelined_behind_slow_response", cfg={"read_timeout": 0.5, "keep_alive_timeout": 5}, apps=[slow, ok])
+    h1([["send", "POST / HTTP/1.1\r\nHost: x\r\nTransfer-Encoding: chunked\r\n\r\n" + "".join("1\r\n%s\r\n" % chr(97 + i % 26) for i in range(30)) + "0\r\n\r\n"]],
+       "read_timeout_body_backpressure", cfg={"read_timeout": 0.5, "keep_alive_timeout": 5}, apps=[[["sleep", 1.2007]] + ok], methods=["POST"])
+    h1([["send", get], ["sleep", 0.7]], "read_timeout_idle", cfg={"read_timeout": 0.5, "keep_alive_timeout": 5})
+    # the application keeps sending after the server closed the connection itself (write after write_eof / aclose)
+    streaming = [["send", {"type": "http.response.start", "status": 200, "headers": []}], ["send", {"type": "http.response.body", "body": b"a", "more_body": True}],
+                 ["recv"], ["recv"], ["send", {"type": "http.response.body", "body": b"b", "more_body": True}], ["send", {"type": "http.response.body", "body": b"c"}]]
+    h1([["send", "POST / HTTP/1.1\r\nHost: x\r\nTransfer-Encoding: chunked\r\n\r\n1\r\na\r\n"], ["sleep", 0.1], ["send", "zz\r\nbroken"], ["sleep", 1.0]],
+       "send_after_server_close", apps=[streaming], methods=["POST"])
     return out
 
 
